@@ -281,6 +281,9 @@ def run(ctx):
     K = None
     B = None
     measure = "number_of_integer_digits"
+    # ... and the helper itself measures the smallest and the largest value (shared with the PDB writer's rule)
+    from .C07 import digits_helper_rule
+    digits_helper_rule(ctx, "R2.digits-helper")
     for st in stmts(wr):
         if not (isinstance(st, ast.If) and st.body and isinstance(st.body[-1], ast.Raise)):
             continue
